@@ -662,7 +662,7 @@ def run(ctx):
     check_full_batch(ctx, probes_full, "probe", stats)
 
     # 2. `lex` correspondence + lexer oracle: three streams
-    n_lex = ctx.scale(6000, 300000)
+    n_lex = ctx.scale(4000, 300000)
     done = 0
     distinct = set()
     nontrivial = 0
@@ -702,7 +702,7 @@ def run(ctx):
         check_lex_batch(ctx, [s for _, s in sources], "repo sources", stats)
 
     # 3. `full` oracle
-    n_full = ctx.scale(1500, 60000)
+    n_full = ctx.scale(1000, 60000)
     fdone = 0
     fhist = {"soup": 0, "mutation": 0, "deep": 0, "multi": 0, "random": 0, "arity": 0}
     depth = ctx.scale(200, 2000)
@@ -753,7 +753,7 @@ def run(ctx):
     cli_stacks = {"C05_STACK_MB": str(cfg["main_mb"]), "C05_RAYON_STACK_MB": str(cfg["worker_mb"])}
     real_depth = 2000
     n_before = len(ctx.violations)
-    batch = [[("Main", gen_deep(rng.fork(), real_depth))] for _ in range(ctx.scale(96, 2000))]
+    batch = [[("Main", gen_deep(rng.fork(), real_depth))] for _ in range(ctx.scale(48, 2000))]
     batch += [[("Main", wrap_expr("(" * 2000 + "1" + ")" * 2000))], [("Main", wrap_expr("a" + ".b" * 2000))],
               [("Main", wrap_expr("1" + "+1" * 4000))], [("Main", wrap_expr("(" * 2000))]]
     check_full_batch(ctx, batch, f"nesting depth <= {real_depth} on the entry point's stacks {cfg}, seed={ctx.seed}", stats,
